@@ -60,6 +60,10 @@ func c12NoiseContent(kind string, id [4]uint16) []byte {
 		return []byte{0, 1, 2, 0xff, 0xfe, '[', 0x80, '\n', 0}
 	case "decoder-crasher":
 		return []byte("[[mapping.0]]0")
+	case "late-decoder-crasher": // complete and valid (carries the device's id) up to a last construct on which the TOML decoder crashes
+		return []byte(c12Config("noise", id) + "\n[[mapping.analog.0]]\n")
+	case "late-syntax-error": // complete and valid up to a broken last line (an interrupted save)
+		return []byte(c12Config("noise", id) + "\n[[mapping]]\nname = \"cut")
 	case "valid-no-suffix", "valid-other-suffix": // a valid, higher-precedence looking config that must be ignored because of its name
 		return []byte(c12Config("must-be-ignored", id))
 	}
@@ -252,7 +256,7 @@ func firstMappingName(dc *config.DeviceConfig) string {
 	return dc.Config.KeyMappings[0].Name
 }
 
-var c12NoiseKinds = []string{"broken-toml", "fails-validation", "unknown-field", "empty", "binary", "decoder-crasher", "valid-no-suffix",
+var c12NoiseKinds = []string{"broken-toml", "fails-validation", "unknown-field", "empty", "binary", "decoder-crasher", "late-decoder-crasher", "late-syntax-error", "valid-no-suffix",
 	"valid-other-suffix", "text", "dir-named-toml", "dangling-symlink"}
 
 func c12NoiseName(t *rapid.T, kind string, i int) string {
